@@ -64,7 +64,7 @@ def cases(ctx):
     n = 800 if ctx.tier == "quick" else 9000
     for i in range(n):
         kind = rng.choice(["rank", "rank", "median", "mean", "tm", "find", "find"])
-        dtype = rng.choice(DTYPES + (["bool"] if kind in ("find", "tm") else []))
+        dtype = rng.choice(DTYPES + ["bool"])     # boolean images too: the median of a binary neighbourhood is its majority, ties by rank
         if kind == "find":
             h, w = rng.choice([1, 2, 3, 4, 5, 6]), rng.choice([1, 2, 3, 4, 5, 6])
             th, tw = rng.randint(1, h), rng.randint(1, w)
